@@ -2,9 +2,11 @@ package main
 
 import (
 	"bytes"
+	"encoding/binary"
 	"errors"
 	"fmt"
 	"io"
+	"runtime"
 	"strings"
 
 	"verif/harness/codec"
@@ -179,8 +181,81 @@ func decode(kind string, data []byte) string {
 			fmt.Fprintf(&sb, " %s %s %s %s", codec.H64(s[0].X), codec.H64(s[0].Y), codec.H64(s[1].X), codec.H64(s[1].Y))
 		}
 		return sb.String()
+	case "plycap":
+		if len(data) != 8 {
+			return "bad-args"
+		}
+		// TotalAlloc is process-wide: an allocation of the runtime's own (a GC cycle starting) that lands
+		// between two samples would be attributed to the list loop.  The loop is deterministic, such noise
+		// is not: the answer is the first trace that is observed twice.
+		n, k := binary.BigEndian.Uint32(data[:4]), int(binary.BigEndian.Uint32(data[4:]))
+		seen := map[string]bool{}
+		last := ""
+		for i := 0; i < 6; i++ {
+			last = capTrace(n, k)
+			if seen[last] {
+				return last
+			}
+			seen[last] = true
+		}
+		return "unstable:" + last
 	}
 	return "unknown-kind"
+}
+
+var errNoMoreValues = errors.New("no more values")
+
+// capTrace runs the REAL decodeInstance (hook VerifDecodeInstance) on an element with one property
+// `list uint uchar`, with a value source that hands out the length n, then k entries, then fails, and
+// that allocates nothing itself.  TotalAlloc is sampled at every call, so the difference between two
+// consecutive calls is exactly what the list loop allocated in between: the slice made before the first
+// entry, and the re-allocations of append.  Rendering: `ok <stored>:<slots>,… total <slots>` (16 bytes
+// per slot), the same as lean/M3d/Drv/C16.lean.
+func capTrace(n uint32, k int) string {
+	el := &ff.PLYElement{Name: "s", Count: 1, Properties: []*ff.PLYProperty{
+		{Name: "l", LenType: ff.PLYPropertyTypeUint, ElemType: ff.PLYPropertyTypeUchar}}}
+	var lenVal ff.PLYValue = ff.PLYValueUint32{Value: n}
+	var entry ff.PLYValue = ff.PLYValueUint8{Value: 7}
+	rec := make([]uint64, 0, k+4)
+	var m runtime.MemStats
+	calls := 0
+	_, err := ff.VerifDecodeInstance(el, func(t ff.PLYPropertyType) (ff.PLYValue, error) {
+		runtime.ReadMemStats(&m)
+		if len(rec) < cap(rec) {
+			rec = append(rec, m.TotalAlloc)
+		}
+		calls++
+		if calls == 1 {
+			return lenVal, nil
+		}
+		if calls-1 > k {
+			return nil, errNoMoreValues
+		}
+		return entry, nil
+	})
+	runtime.ReadMemStats(&m)
+	rec = append(rec, m.TotalAlloc)
+	if err != errNoMoreValues || calls != k+2 {
+		return fmt.Sprintf("unexpected-end calls=%d err=%v", calls, err != nil)
+	}
+	var parts []string
+	var total uint64
+	for j := 0; j+1 < len(rec); j++ {
+		d := rec[j+1] - rec[j]
+		if d == 0 {
+			continue
+		}
+		stored := 0
+		if j > 0 {
+			stored = j - 1 // the j-th call returned entry j, which is appended to j-1 stored entries
+		}
+		if d%16 != 0 {
+			return fmt.Sprintf("unexpected-allocation stored=%d bytes=%d", stored, d)
+		}
+		parts = append(parts, fmt.Sprintf("%d:%d", stored, d/16))
+		total += d / 16
+	}
+	return fmt.Sprintf("ok %s total %d", strings.Join(parts, ","), total)
 }
 
 // unboundedEmptyRows: a binary header declaring more than 4096 rows for an element without properties.
